@@ -1,0 +1,13 @@
+//go:build verif
+
+package pullapi
+
+import "time"
+
+// VerifSetNow replaces the clock of the recently-completed-lease cache (the
+// idempotency window of duplicate ack/nack) for the verification harness.
+func (s *Server) VerifSetNow(now func() time.Time) {
+	s.recentLeaseMu.Lock()
+	s.now = now
+	s.recentLeaseMu.Unlock()
+}
